@@ -145,7 +145,7 @@ func runC06(c *Ctx) {
 			for _, b := range init.Blocks {
 				for _, s := range b.Succs {
 					if fx.edgeEstablishes(b, s, func(f Fact) bool { return f.Pol && f.T.lastField() == "FilterNonPreemptible" }) {
-						_, pp, found := reachAvoiding([]cfgPos{{s, 0}}, func(x ssa.Instruction) bool { return x == in }, nil, func(from, to *ssa.BasicBlock) bool {
+						_, pp, found := reachAvoiding([]cfgPos{{B: s, I: 0}}, func(x ssa.Instruction) bool { return x == in }, nil, func(from, to *ssa.BasicBlock) bool {
 							// prune edges that establish "not preemptible"
 							return !fx.edgeEstablishes(from, to, func(f Fact) bool { return !f.Pol && isCallNamed(f.T, "IsPreemptibleJob") })
 						})
@@ -471,7 +471,7 @@ func runC06(c *Ctx) {
 						if k, ok := ret.Results[0].(*ssa.Const); ok && k.Value.ExactString() == "false" {
 							continue
 						}
-						if _, _, found := reachAvoiding([]cfgPos{{s, 0}}, func(x ssa.Instruction) bool { return x == ssa.Instruction(ret) }, nil, nil); found {
+						if _, _, found := reachAvoiding([]cfgPos{{B: s, I: 0}}, func(x ssa.Instruction) bool { return x == ssa.Instruction(ret) }, nil, nil); found {
 							bad = true
 						}
 					}
